@@ -199,14 +199,18 @@ class KaniProp:
             print("  harness=%s check=%s" % (inst.name, desc))
         for s in inconclusive:
             print("INCONCLUSIVE: %s" % s)
+        covers_fatal = bool(unsat_covers) and not args.only and not self.not_explored
         if unsat_covers and not args.only:
             for k in unsat_covers:
-                print("INCONCLUSIVE: cover never satisfied in any instance: %s" % k)
+                print(("INCONCLUSIVE: cover never satisfied in any instance: %s" if covers_fatal else
+                       "note: cover not satisfied by the instances explored (some instances were not explored): %s") % k)
         self._evidence(pid, tier, seed, mine, results, t0, len(violations), inconclusive, unsat_covers,
                        known, partial=bool(args.only))
         if violations:
             return 1
-        if inconclusive or (unsat_covers and not args.only):
+        if self.not_explored:
+            log("[%s] %d instances not explored within the budget (listed in the evidence)" % (pid, len(self.not_explored)))
+        if inconclusive or covers_fatal:
             return 2
         return 0
 
